@@ -12,12 +12,16 @@ import (
 
 func init() {
 	register(&Prop{
-		ID:    "C05",
-		Title: "Writes respect update, writable-field and reset masks",
+		ID:          "C05",
+		Title:       "Writes respect update, writable-field and reset masks",
 		Explanation: "R05.1 Value.set and Collection.Update build one FieldUpdater from the request, validate the written message with it before GetAndUpdate and hand the same updater to the change function. R05.2 Validate's decision table: an update mask with unknown paths or with paths outside the writable fields is rejected with InvalidArgument, anything else passes. R05.3 WriteRequest.fieldUpdater's table: all-writable override or nil resource mask mean no writable restriction, otherwise the union of resource and per-call writable fields; update and reset masks are always passed on. R05.4 the frame of FieldUpdater.Merge on every path of its decision tree: nothing-writable and empty-mask paths never write dst; src is filtered by the writable mask and by the update mask before proto.Merge(dst, src); dst is cleared (entirely only when nothing restricts writing, otherwise only the writable fields) only when there is no update mask and before the merge; the reset mask prunes dst after the merge. R05.5 pruneEmpty visits every field (its Range callback never stops the iteration) and recurses only into singular messages. The read-only test compares paths on whole segments (prefix tests end in the separator). Does NOT decide the field-by-field semantics of fmutils / proto.Merge on nested paths, oneofs, maps and repeated fields (third-party code, runtime message shapes).",
 		Assumptions: []string{"fmutils.NestedMask.Filter keeps exactly the masked fields, Prune clears exactly the masked fields, proto.Merge copies set fields of src into dst, protoreflect Range stops when the callback returns false"},
 		Run:         runC05,
 		Controls: []Control{
+			{Name: "revert-F54-update-mask-raw", File: "pkg/masks/update.go", Old: "fmutils.NestedMaskFromPaths(normalPaths(mask.GetPaths()))", New: "fmutils.NestedMaskFromPaths(mask.GetPaths())", Expect: "R05.8"},
+			{Name: "reset-mask-raw", File: "pkg/masks/update.go", Old: "fmutils.Prune(dst, normalPaths(f.resetMask.Paths))", New: "fmutils.Prune(dst, f.resetMask.Paths)", Expect: "R05.8"},
+			{Name: "normal-paths-without-normalize", File: "pkg/masks/update.go", Old: "\tmask.Normalize()\n\treturn mask.Paths\n", New: "\treturn mask.Paths\n", Expect: "R05.8"},
+			{Name: "normalise-inline", Silent: true, File: "pkg/masks/update.go", Old: "\tnestedMask := fmutils.NestedMaskFromPaths(normalPaths(mask.GetPaths()))\n", New: "\tnormal := &fieldmaskpb.FieldMask{Paths: append([]string(nil), mask.GetPaths()...)}\n\tnormal.Normalize()\n\tnestedMask := fmutils.NestedMaskFromPaths(normal.Paths)\n"},
 			{Name: "more-update-mask-widens-nil", File: "pkg/resource/opt.go", Old: "\t\tif request.UpdateMask == nil {\n\t\t\treturn // a nil update mask means all fields are writable anyway\n\t\t}\n", New: "", Expect: "R05.7"},
 			{Name: "overlap-by-raw-prefix", File: "pkg/masks/update.go", Old: "if path == p || strings.HasPrefix(path, p+\".\") || strings.HasPrefix(p, path+\".\") {", New: "if strings.HasPrefix(path, p) || strings.HasPrefix(p, path) {", Expect: "R05.2"},
 			{Name: "remove-validate", File: "pkg/resource/value.go", Old: "\tif err := writer.Validate(value); err != nil {\n\t\treturn nil, err\n\t}\n", New: "", Expect: "R05.1"},
@@ -28,8 +32,8 @@ func init() {
 			{Name: "revert-F29-clear-whole-parent", File: "pkg/masks/update.go", Old: "\t\t\tif len(fieldMask) == 0 {\n\t\t\t\t// the mask names the whole field\n\t\t\t\tdstPr.Clear(d)\n\t\t\t} else if", New: "\t\t\tif true {\n\t\t\t\tdstPr.Clear(d)\n\t\t\t} else if", Expect: "R05.5"},
 			{Name: "ignore-more-writable", File: "pkg/resource/opt.go", Old: "fields := fieldmaskpb.Union(writableFields, wr.moreWritableFields)", New: "fields := fieldmaskpb.Union(writableFields, writableFields)", Expect: "R05.3"},
 			{Name: "merge-before-filter", File: "pkg/masks/update.go", Old: "\tnestedMask.Filter(src)\n\tproto.Merge(dst, src)\n", New: "\tproto.Merge(dst, src)\n\tnestedMask.Filter(src)\n", Expect: "R05.4"},
-			{Name: "reset-before-merge", File: "pkg/masks/update.go", Old: "\tproto.Merge(dst, src)\n\n\t// if a field mentioned by the mask is nil, we should clear it\n\tpruneEmpty(dst, src, nestedMask)\n\n\tif f.resetMask != nil {\n\t\tfmutils.Prune(dst, f.resetMask.Paths)\n\t}\n",
-				New: "\tif f.resetMask != nil {\n\t\tfmutils.Prune(dst, f.resetMask.Paths)\n\t}\n\tproto.Merge(dst, src)\n\n\tpruneEmpty(dst, src, nestedMask)\n", Expect: "R05.4"},
+			{Name: "reset-before-merge", File: "pkg/masks/update.go", Old: "\tproto.Merge(dst, src)\n\n\t// if a field mentioned by the mask is nil, we should clear it\n\tpruneEmpty(dst, src, nestedMask)\n\n\tif f.resetMask != nil {\n\t\tfmutils.Prune(dst, normalPaths(f.resetMask.Paths))\n\t}\n",
+				New: "\tif f.resetMask != nil {\n\t\tfmutils.Prune(dst, normalPaths(f.resetMask.Paths))\n\t}\n\tproto.Merge(dst, src)\n\n\tpruneEmpty(dst, src, nestedMask)\n", Expect: "R05.4"},
 			{Name: "reset-with-mask", File: "pkg/masks/update.go", Old: "\tmask := f.updateMask\n\tif mask == nil {\n", New: "\tmask := f.updateMask\n\tif mask == nil || len(mask.GetPaths()) > 1 {\n", Expect: "R05.4"},
 			{Name: "prune-stops-early", File: "pkg/masks/update.go", Old: "\t\t\t\tfieldMask.Prune(dstPr.Get(d).Message().Interface())\n\t\t\t}\n\t\t\treturn true", New: "\t\t\t\tfieldMask.Prune(dstPr.Get(d).Message().Interface())\n\t\t\t}\n\t\t\treturn false", Expect: "R05.5"},
 			{Name: "validate-twice", Silent: true, File: "pkg/resource/value.go", Old: "\tif err := writer.Validate(value); err != nil {\n\t\treturn nil, err\n\t}\n", New: "\tif err := writer.Validate(value); err != nil {\n\t\treturn nil, err\n\t}\n\tif err := writer.Validate(value); err != nil {\n\t\treturn nil, err\n\t}\n"},
@@ -51,6 +55,8 @@ func runC05(c *an.Ctx) {
 	c.Min("R05.2", 4)
 	c.Min("R05.3", 3)
 	c.Min("R05.4", 10)
+	r058(c, "R05.8")
+	c.Min("R05.8", 3)
 	c.Min("R05.5", 2)
 }
 
@@ -519,7 +525,7 @@ func r054as(c *an.Ctx, rule string) {
 			if strings.Contains(a, "len(") && strings.Contains(a, "f.updateMask") {
 				uEmpty = v
 			}
-			if strings.Contains(a, "NestedMaskFromPaths(f.writableFields.Paths)==nil") {
+			if strings.Contains(a, "NestedMaskFromPaths(") && strings.Contains(a, "f.writableFields.Paths") && strings.HasSuffix(a, "==nil") {
 				wMaskNil = v
 			}
 		}
